@@ -53,7 +53,8 @@ def run(v):
             kinds[k] = kinds.get(k, 0) + 1
     for name in ("off", "on"):
         for inc in outs[name][1]:
-            v.violation("build with feature %s did not return on input line %d: %s" % (name, inc["line"], inc["kind"]), inc, "incident_%s_%d.json" % (name, inc["line"]))
+            ln = inc["line"] if inc["line"] is not None else -1
+            v.violation("build with feature %s did not return on input line %d: %s" % (name, ln, inc["kind"]), inc, "incident_%s_%d.json" % (name, ln))
     if n == 0:
         raise ToolError("no outcomes recorded")
     v.cov["traces_validated_against_impl"] += n
